@@ -4,7 +4,9 @@ claim("C07", "proof",
       "proved for every buffer length n <= 2^24 by enforced function contracts and loop contracts on the real src/rtosc.c "
       "(deref, bundle_ring_length, rtosc_message_ring_length, rtosc_message_length, rtosc_valid_message_p), each caller checked against "
       "its callees' contracts. Sentence 2 (accepted => every accessor stays inside n and agrees with an independent reference decoder) "
-      "is decided by bounded obligations that are exhaustive for EVERY byte string of length 0..12 (quick) / 0..20 (thorough): all "
+      "is decided by bounded obligations that are exhaustive for EVERY byte string of length 0..12 (quick) / 0..18 (thorough), plus a "
+      "structured family (address '/a' and a tag string fixed - 1..2 tags over {s,b,i,h,T} and four bracketed tag strings - with the whole "
+      "payload region symbolic, n = 16..36): all "
       "2^(8n) buffers symbolic at once in an exact-size object; these are reported as bounded, not as proved.",
       "Trusted: CBMC and its SAT back end, CBMC's isprint model, LP64 bit-vector semantics, -DNDEBUG as shipped. Termination of the one "
       "loop `while(toparse)` is only covered by unwinding assertions inside the bound. Reference decoder is lenient (padding content ignored, "
